@@ -12,6 +12,8 @@
 name: mbuff.init
 define: U_INIT
 src: mbuff.c, obj.c
+native: mbuff
+native_includes: mbuff.c
 enforce: spif_mbuff_init
 backend: sat,z3
 timeout: 150
@@ -20,6 +22,8 @@ timeout: 150
 name: mbuff.new
 define: U_NEW
 src: mbuff.c, obj.c
+native: mbuff
+native_includes: mbuff.c
 enforce: spif_mbuff_new
 backend: sat,z3
 timeout: 150
@@ -29,6 +33,8 @@ funcs: spif_mbuff_init
 name: mbuff.init_from_ptr.null
 define: U_FROM_PTR, U_NULLSRC
 src: mbuff.c, obj.c
+native: mbuff
+native_includes: mbuff.c
 enforce: spif_mbuff_init_from_ptr
 backend: sat,z3
 timeout: 150
@@ -38,6 +44,8 @@ funcs: spif_mbuff_init
 name: mbuff.init_from_ptr.nonempty
 define: U_FROM_PTR, U_NONEMPTY
 src: mbuff.c, obj.c
+native: mbuff
+native_includes: mbuff.c
 enforce: spif_mbuff_init_from_ptr
 backend: sat,z3
 timeout: 150
@@ -46,6 +54,8 @@ timeout: 150
 name: mbuff.init_from_ptr.empty
 define: U_FROM_PTR, U_EMPTY, U_NOT_KF
 src: mbuff.c, obj.c
+native: mbuff
+native_includes: mbuff.c
 enforce: spif_mbuff_init_from_ptr
 backend: sat,z3
 timeout: 150
@@ -54,6 +64,8 @@ timeout: 150
 name: mbuff.init_from_ptr.empty.inv
 define: U_FROM_PTR, U_EMPTY, U_ONLY_KF
 src: mbuff.c, obj.c
+native: mbuff
+native_includes: mbuff.c
 enforce: spif_mbuff_init_from_ptr
 backend: sat,z3
 timeout: 150
@@ -62,6 +74,8 @@ timeout: 150
 name: mbuff.new_from_ptr.nonempty
 define: U_NEW_FROM_PTR, U_NONEMPTY
 src: mbuff.c, obj.c
+native: mbuff
+native_includes: mbuff.c
 enforce: spif_mbuff_new_from_ptr
 backend: sat,z3
 timeout: 150
@@ -71,6 +85,8 @@ funcs: spif_mbuff_init_from_ptr
 name: mbuff.new_from_ptr.empty
 define: U_NEW_FROM_PTR, U_EMPTY, U_NOT_KF
 src: mbuff.c, obj.c
+native: mbuff
+native_includes: mbuff.c
 enforce: spif_mbuff_new_from_ptr
 backend: sat,z3
 timeout: 150
@@ -80,6 +96,8 @@ funcs: spif_mbuff_init_from_ptr
 name: mbuff.new_from_ptr.empty.inv
 define: U_NEW_FROM_PTR, U_EMPTY, U_ONLY_KF
 src: mbuff.c, obj.c
+native: mbuff
+native_includes: mbuff.c
 enforce: spif_mbuff_new_from_ptr
 backend: sat,z3
 timeout: 150
@@ -89,6 +107,8 @@ funcs: spif_mbuff_init_from_ptr
 name: mbuff.init_from_buff.nonempty
 define: U_FROM_BUFF, U_NONEMPTY
 src: mbuff.c, obj.c
+native: mbuff
+native_includes: mbuff.c
 enforce: spif_mbuff_init_from_buff
 backend: sat,z3
 timeout: 150
@@ -97,6 +117,8 @@ timeout: 150
 name: mbuff.init_from_buff.empty
 define: U_FROM_BUFF, U_EMPTY, U_NOT_KF
 src: mbuff.c, obj.c
+native: mbuff
+native_includes: mbuff.c
 enforce: spif_mbuff_init_from_buff
 backend: sat,z3
 timeout: 150
@@ -105,6 +127,8 @@ timeout: 150
 name: mbuff.init_from_buff.empty.inv
 define: U_FROM_BUFF, U_EMPTY, U_ONLY_KF
 src: mbuff.c, obj.c
+native: mbuff
+native_includes: mbuff.c
 enforce: spif_mbuff_init_from_buff
 backend: sat,z3
 timeout: 150
@@ -113,6 +137,8 @@ timeout: 150
 name: mbuff.new_from_buff.nonempty
 define: U_NEW_FROM_BUFF, U_NONEMPTY
 src: mbuff.c, obj.c
+native: mbuff
+native_includes: mbuff.c
 enforce: spif_mbuff_new_from_buff
 backend: sat,z3
 timeout: 150
@@ -122,6 +148,8 @@ funcs: spif_mbuff_init_from_buff
 name: mbuff.new_from_buff.empty
 define: U_NEW_FROM_BUFF, U_EMPTY, U_NOT_KF
 src: mbuff.c, obj.c
+native: mbuff
+native_includes: mbuff.c
 enforce: spif_mbuff_new_from_buff
 backend: sat,z3
 timeout: 150
@@ -131,6 +159,8 @@ funcs: spif_mbuff_init_from_buff
 name: mbuff.new_from_buff.empty.inv
 define: U_NEW_FROM_BUFF, U_EMPTY, U_ONLY_KF
 src: mbuff.c, obj.c
+native: mbuff
+native_includes: mbuff.c
 enforce: spif_mbuff_new_from_buff
 backend: sat,z3
 timeout: 150
